@@ -402,6 +402,19 @@ _add('C04', 'DeeprobModel.Lemmas.PostOrderRLemmas', 'Deeprob.PostOrder', ['walk_
 _add('C14', 'DeeprobModel.Props.C14Backward', 'Deeprob.C14B', ['coded_grads_rel', 'backward_coded_eq_derivative_of_pos', 'backward_coded_is_derivative_of_pos',
      'resp_coded_exact', 'resp_coded_exact_valid', 'leaf_stat_coded_exact', 'sum_stat_coded_exact', 'sum_stat_coded_exact_of_weight', 'forwardC_eq_codedLls',
      'backwardC_forwardC', 'stat_fin_as_coded', 'coded_grad_wrong_witness', 'raw_stat_zero_weight_witness'], [])
+# round 5: the per-node rules of eval_backward extracted (association (g + lls[node]) - lls[c] preserved) and tied to the coded-pass model
+_add('C14', _O + 'Struct5Grad', 'Deeprob.Oblig.Struct5G', ['gradSum_as_coded', 'gradProd_as_coded', 'gradLeaf_as_coded', 'sendDownC_as_coded', 'gradAccum_as_coded',
+     'gradNode_as_coded', 'gradRoot_as_coded', 'gradRoot_denotes', 'backwardC_as_coded', 'noParent_last'], ['gradient.eval_backward.rules'])
+_add('C14', 'DeeprobModel.Props.E2EGrad', 'Deeprob.E2EGrad', ['genGrads_eq', 'genBackward_forwardC', 'e2e_coded_grads_rel', 'e2e_backward_coded', 'e2e_leaf_stat_coded',
+     'e2e_backward_coded_valid'], [])
+# round 5: the calculus facts behind the flow log-determinants, over the reals (Mathlib): slopes of every element-wise map, Jacobians
+# of element-wise / triangular maps, reported log-det = log |det fderiv| for every modelled layer
+_add('C15', 'DeeprobModel.Props.C15Calculus', 'Deeprob.Flows.Calc', ['realExpLog_fields', 'logit_backward_hasDerivAt', 'logit_backward_slope_pos', 'sigmoid_hasDerivAt',
+     'logit_forward_hasDerivAt', 'logit_slopes_reciprocal', 'affine_forward_hasDerivAt', 'affine_backward_hasDerivAt', 'bn_backward_hasDerivAt', 'bn_forward_hasDerivAt',
+     'dequantize_reported_is_not_log_slope', 'elementwise_hasFDerivAt', 'elementwise_det', 'elementwise_logabsdet', 'triangular_fderiv_det', 'triangular_logabsdet',
+     'logit_backward_ldj_is_logabsdet', 'logit_forward_ldj_is_logabsdet', 'bn1d_backward_ldj_is_logabsdet', 'bn1d_forward_ldj_is_logabsdet', 'bn2d_backward_ldj_is_logabsdet',
+     'bn2d_forward_ldj_is_logabsdet', 'coupling_backward_ldj_is_logabsdet', 'coupling_forward_ldj_is_logabsdet', 'coupling_additive_ldj_is_logabsdet',
+     'maf_backward_ldj_is_logabsdet', 'maf_forward_ldj_is_logabsdet', 'mafLoop_differentiable', 'permutation_ldj_is_logabsdet', 'compose_ldj_is_logabsdet'], [])
 # round 5: the Gaussian leaf (density as SciPy evaluates it, normalisation, mode, raw moments of every order as integrals)
 _GT = 'Deeprob.GaussTheory'
 _add('C01', 'DeeprobModel.Props.GaussTheory', _GT, ['gauss_exp_logpdf', 'gauss_integral_one', 'gaussPdf_pos'], [])
